@@ -141,8 +141,9 @@ class Trace:
             block = impl[i] if i < len(impl) else ["<missing>"]
             for l in block:
                 if l.startswith("PANIC") or l == "<missing>" or l.startswith("dead "):
-                    self.add("C01", i, "a side panicked or stopped: %s" % l)
-                    self.add("C09", i, "a side panicked or stopped: %s" % l)
+                    # a crashed app serves nobody: whatever property is being judged, it no longer holds
+                    for p_ in ["C01", "C09"] + ["C%02d" % k_ for k_ in range(2, 17) if k_ != 9]:
+                        self.add(p_, i, "a side panicked or stopped: %s" % l)
                     return self.problems
                 if l.startswith("orphan-message") or "UNDECODABLE" in l:
                     self.add("C01", i, "undecodable or misaddressed message: %s" % l)
@@ -634,6 +635,10 @@ class Trace:
                         continue
                     cc, ut, ok, ents, extra, mt = parse_cli(l)
                     if c not in connected:
+                        if mt not in ("-", "0/0") and frames_since_disconnect.get(c, 0) >= 1:
+                            for p_ in ("C09", "C12"):
+                                self.add(p_, i, "client %d has noticed the end of its session but its record of received mutate ticks is %s, not the initial one: "
+                                                "the next session's ticks are measured against the old session's last tick" % (c, mt))
                         continue
                     ses = session[c]
                     if not ok:
